@@ -204,6 +204,24 @@ def reader_rule(F, rep):
         bad = [x for x in tir.walk(w["body"]) if x.get("k") in ("Ret", "Break", "Try") or (x.get("k") == "Call" and (declared(x) or "").endswith("::Err"))]
         ok = not bad
     rep.ob("reader.ignore-unknown", ok, peppifmt.READ, "wildcard", "the wildcard arm must ignore unknown entries (no error, break or return)")
+    # an entry whose name is not dispatched on reaches only the code of the loop body *outside* the named arms: nothing there
+    # may refuse the archive (the `?` on the tar iterator / Entry::path() are I/O errors of the archive itself)
+    if loop is not None:
+        named = [a["body"] for k_, a in arms.items() if k_ != "_"]
+        inside = set()
+        for nb in named:
+            for x in tir.walk(nb):
+                inside.add(id(x))
+        bad = []
+        for x in tir.walk(loop["body"]):
+            if id(x) in inside:
+                continue
+            if (x.get("k") in ("Call", "Struct") and "Error::InvalidData" in (x.get("path") or declared(x) or "")) or \
+                    (x.get("k") == "Ret" and x.get("e") is not None) or \
+                    (x.get("k") == "Call" and (declared(x) or "").endswith("::Err")):
+                bad.append(tir.sp(x))
+        rep.ob("reader.unknown-not-refused", not bad, peppifmt.READ, "loop", "the entry loop refuses an archive outside the arms of the entries it knows (%s): an unknown entry can make the reader fail instead of being ignored" % bad[:3],
+               sample={"sites": bad})
     name_total_rule(F, rep, m, loop)
     fa = arms.get("frames.arrow")
     ok = fa is not None and any(x.get("k") == "Break" for x in tir.walk(fa["body"]))
